@@ -42,7 +42,7 @@ def enum_streams(tier):
 
 def run(tier):
     import k1b
-    return k2check.run("C02", tier, profile="mixed", extra_props=["C02Par"], phases=[k1b.split_phase],
+    return k2check.run("C02", tier, profile="mixed", extra_props=["C02Par", "C02Rebuild"], phases=[k1b.split_phase],
                        extra_streams=real_limit_streams(tier) + enum_streams(tier))
 
 
